@@ -28,6 +28,7 @@ def gen_group(rng, depth, inherited):
     dims = {}
     for n in rng.sample(DIMNAMES, rng.randint(0 if inherited else 1, 3)):
         dims[n] = rng.randint(1, 4)
+    unlimited = rng.choice(sorted(dims)) if (dims and not inherited and rng.random() < 0.4) else None   # root only: one record dimension
     visible = dict(inherited)
     visible.update({n: s for n, s in dims.items()})
     vars_ = []
@@ -59,7 +60,8 @@ def gen_group(rng, depth, inherited):
         for g in rng.sample(GROUPS, rng.randint(0, 2)):
             if g not in used:
                 subs.append((g, gen_group(rng, depth - 1, visible)))
-    return {"dims": dims, "vars": vars_, "subs": subs, "attrs": {"ga": rng.randint(0, 9)} if rng.random() < 0.5 else {}}
+    return {"dims": dims, "vars": vars_, "subs": subs, "attrs": {"ga": rng.randint(0, 9)} if rng.random() < 0.5 else {},
+            "unlimited": unlimited}
 
 
 def write_nc(path, spec, rng):
@@ -69,7 +71,7 @@ def write_nc(path, spec, rng):
 
     def fill(grp, g, gpath, visible):
         for n, s in g["dims"].items():
-            grp.createDimension(n, s)
+            grp.createDimension(n, None if g.get("unlimited") == n else s)   # an unlimited dimension grows to s when data is written
         vis = dict(visible)
         vis.update(g["dims"])
         for k, v in g["attrs"].items():
@@ -349,7 +351,7 @@ def main():
     r.assumptions = [
         "the netCDF4 and csv libraries, numpy.lib.Arrayterator and the XDR codec (C05) are trusted here; only the naming logic is modelled",
         "files are generated by the same netCDF4 library the handler reads them with",
-        "unlimited dimensions are not generated (fixed sizes only) - TODO in DESIGN.md",
+        "an unlimited (record) dimension is generated in the root group only, and only when some variable is written along it",
     ]
     r.finish()
 
